@@ -18,6 +18,7 @@ mod c12;
 mod c13;
 mod c14;
 mod c15;
+mod c16;
 mod c17;
 mod gen_builders;
 mod util;
@@ -41,6 +42,7 @@ fn run_property(id: &str, tier: &str) -> Option<Run> {
         "C13" => c13::run(tier),
         "C14" => c14::run(tier),
         "C15" => c15::run(tier),
+        "C16" => c16::run(tier),
         "C17" => c17::run(tier),
         _ => return None,
     })
@@ -52,6 +54,9 @@ fn main() {
     if args.len() < 3 && !(args.len() == 2 && args[1] == "diag") {
         eprintln!("usage: vmain <PROPERTY> <quick|thorough> | vmain replay <file>");
         std::process::exit(2);
+    }
+    if args[1] == "C16-fault" && args.len() >= 4 {
+        std::process::exit(c16::fault_child(args[2].parse().unwrap_or(0), &args[3]));
     }
     if args[1] == "diag" {
         diag();
@@ -77,6 +82,7 @@ fn main() {
             "C13" => c13::replay(&v["replay"]),
             "C14" => c14::replay(&v["replay"]),
             "C15" => c15::replay(&v["replay"]),
+            "C16" => c16::replay(&v["replay"]),
             "C17" => c17::replay(&v["replay"]),
             _ => Err(format!("no replay for property {prop}")),
         };
